@@ -287,7 +287,7 @@ def apply_in_op(op, inp, w, tmp, uid):
 class C17:
     prop = "C17"
     level = "fault_enumeration"
-    budgets = {"quick": 1800, "thorough": 60000}
+    budgets = {"quick": 2400, "thorough": 60000}
     scenario_timeout = 900
 
     def warm_extra(self):
